@@ -5,8 +5,8 @@ import oracles
 import vrun
 from props import _vfamily
 
-LEVEL = "translation_validation"
-COQ_FILES = ["theories/Model/Validate.v"]
+LEVEL = "proof"
+COQ_FILES = ['theories/Model/Validate.v', 'theories/Proofs/ChildProofs.v', 'theories/Proofs/PathProofs.v', 'theories/Properties/C10.v']
 FACT_GROUPS = ["F6"]
 ALLOWED_AXIOMS = []
 TRUSTED_BASE = _vfamily.BASE_TRUSTED
